@@ -85,7 +85,9 @@ class _Oracle:
         for v in model.solver.variables.items:
             if v.name == "moma_old_objective":
                 v.primal = None if status != "optimal" else val  # growth at the minimal-adjustment solution
-        fluxes = {r.id: 0.0 for r in model.reactions}
+        # a flux distribution that is consistent with the table: everything that is not switched off carries flux,
+        # except R2, whose deletion changes nothing (a shortcut that looks at one solution must still be right)
+        fluxes = {r.id: (0.0 if (r.id in ko or r.id == "R2" or status != "optimal") else 1.0) for r in model.reactions}
         if kind == "moma":
             # the LP objective of MOMA is the distance, not the growth
             return (NAN if status != "optimal" else 100.0 + len(ko)), fluxes, status
@@ -116,7 +118,14 @@ def _pfba_decoy(it, ev, c, args, kwargs):
     return SolutionLP(Formulation(model), list(model.reactions), WILD, {r.id: DECOY for r in model.reactions})
 
 
-STUBS = {"cobra.util.solver.interface_to_str": _interface_to_str,
+def _get_solution(it, ev, c, args, kwargs):
+    from .fvaform import _get_solution as g
+
+    return g(it, ev, c, args, kwargs)
+
+
+STUBS = {"cobra.core.solution.get_solution": _get_solution, "cobra.core.get_solution": _get_solution,
+         "cobra.util.solver.interface_to_str": _interface_to_str,
          "cobra.flux_analysis.parsimonious.pfba": _pfba_decoy, "cobra.flux_analysis.pfba": _pfba_decoy,
          "cobra.util.solver.add_cons_vars_to_problem": lambda it, ev, c, a, k: a[0].add_cons_vars(a[1]),
          "cobra.util.solver.remove_cons_vars_from_problem": lambda it, ev, c, a, k: a[0].remove_cons_vars(a[1])}
@@ -253,7 +262,7 @@ def check_deletions(ctx, rule: str) -> None:
     bad = None
     m_n = 0
     for fname, kind in (("find_essential_reactions", "reaction"), ("find_essential_genes", "gene")):
-        for threshold, neutral in ((None, True), (0.3, True), (0.0, True), (None, False)):
+        for threshold, neutral in ((None, True), (0.3, True), (0.0, True), (None, False), (1.5, True)):   # 1.5: above the wild-type optimum - every entity is essential
             # `neutral=False`: a fully reduced network - no single deletion leaves the growth untouched
             saved = dict(GROWTH)
             if not neutral:
